@@ -304,6 +304,17 @@ func c10Packet(c *h.Ctx, kind string, key interface{}, p c10Pkt, judgeHere bool)
 		return out
 	}
 	c.Exec(1)
+	if uerr == nil {
+		c.ReusedInput(c10Unm, out, func(b []byte) string {
+			q := &nbtns.NBTNSPacket{}
+			var e error
+			if pn := h.Guard(func() { _, e = q.Unmarshal(b) }); pn != "" || e != nil {
+				return fmt.Sprintf("error %v %s", e, pn)
+			}
+			j, _ := json.Marshal(c10Abs(q))
+			return string(j)
+		}, smp)
+	}
 	if !judgeHere {
 		ev := map[string]interface{}{"op": "roundtrip", "p": p, "ok": uerr == nil, "back": c10Pkt{QD: []c10Q{}, AN: []c10RR{}, NS: []c10RR{}, AR: []c10RR{}}}
 		if uerr == nil {
